@@ -43,7 +43,6 @@ func encodeErrorCases() []encErrCase {
 	out = append(out,
 		encErrCase{"unsupported-type", func() any { return &stubNone{X: 1} }, []error{csproto.ErrMarshaler}},
 		encErrCase{"nil-interface", func() any { return nil }, []error{csproto.ErrMarshaler}},
-		encErrCase{"googlev1-legacy-without-XXX-methods", func() any { return &LegacyBare{Name: golangproto.String("x")} }, []error{csproto.ErrMarshaler}},
 		// runtime-detected failures: invalid UTF-8 in a proto3 string, unset required fields
 		encErrCase{"googlev2-plain-invalid-utf8", func() any { return &wrapperspb.StringValue{Value: "\xff"} }, nil},
 		encErrCase{"googlev2-plain-required-missing", func() any { return &descriptorpb.UninterpretedOption_NamePart{} }, nil},
@@ -81,7 +80,7 @@ func decodeErrorCases() []decErrCase {
 			decErrCase{fmt.Sprintf("failing-XXX_Unmarshal-stub/size%d", n), func() any { return &stubV1{rec{failUnmarshal: errXXX}} }, pattern(n), errXXX},
 			decErrCase{fmt.Sprintf("unsupported-type/size%d", n), func() any { return &stubNone{} }, pattern(n), csproto.ErrUnmarshaler},
 			decErrCase{fmt.Sprintf("nil-interface/size%d", n), func() any { return nil }, pattern(n), csproto.ErrUnmarshaler},
-			decErrCase{fmt.Sprintf("googlev1-legacy-without-XXX-methods/size%d", n), func() any { return &LegacyBare{} }, pattern(n), csproto.ErrUnmarshaler},
+			// (a Google V1 message without XXX_ methods is a supported message since csproto delegates it to golang/protobuf: see C11)
 		)
 	}
 	trunc := []byte{0x08}             // field 1, varint, value missing
